@@ -295,7 +295,7 @@ fn on_stop(s: sched::Stop) -> ! {
 fn panic_class(msg: &str) -> Option<String> {
     // a host panic under threads: attribute to C15 when it is the global
     // table being swapped under a running thread, otherwise to C16
-    if msg.contains("hook called by a thread without the token") || msg.contains("prototype engine not built") {
+    if msg.contains("hook called by a thread without the token") || msg.contains("prototype engine not built") || msg.contains("too many simulated threads") {
         return None;
     }
     let short: String = msg.chars().take(70).map(|c| if c.is_ascii_digit() { '#' } else { c }).collect();
@@ -358,11 +358,14 @@ impl Scenario for Threads {
                 panic_class,
             },
         );
-        vmh::set_stale_is_violation(false);
+        // a live reference to a slot that a collection freed: some thread's roots
+        // were not seen by a collection
+        vmh::set_stale_is_violation(true);
         if let Err(e) = vmh::eval(&mut engine, PRELUDE) {
             report::harness_error(format!("prelude failed: {}", e));
         }
         vmh::set_yield_at_dispatch(true);
+        vmh::set_context(*TIER.lock().unwrap());
         let res = vmh::eval(&mut engine, &built.src);
         vmh::set_yield_at_dispatch(false);
         let nthreads = w["threads"].as_array().map(|a| a.len()).unwrap_or(1);
